@@ -20,9 +20,11 @@
  *   !wiped vbi_raw_decoder_parameters cleared the whole vbi_raw_decoder (mutex, rd->pattern) on failure.
  *
  * Concurrent op:
- *   par <seed> <frames> <handler mode> <gap> <threads>   threads: string over D F C R A X; the decode
+ *   par <seed> <frames> <handler mode> <gap> <threads>   threads: string over D T F C R A X; the decode
  *     stream drops frames (time gap, starts the 40 frame channel-switch countdown) about every <gap> frames, 0 = never
- *     D decode thread (seeded caption stream with time gaps), F fetch loop, C channel-switch loop,
+ *     D decode thread (seeded caption stream with time gaps), T the same with a Teletext service whose page headers
+ *     carry the page number and whose station name changes every 24 headers (a channel switch nobody announced:
+ *     store_lop() detects the header mismatch in the same magazine and resets the decoder), F fetch loop, C channel-switch loop,
  *     R raw decode loop, A add/remove/check services loop, X resize loop (NOT a documented role)
  *   prints  ok par fetches=.. torn=.. selfdl=.. raw=.. svc=.. ; ThreadSanitizer reports go to stderr.
  *   A fetched page is `torn` when its text is not one of the page states the same stream produces
@@ -294,7 +296,7 @@ static int done_main;
 /* ---------------- seeded caption stream of the decode thread ---------------- */
 static uint32_t rnd(uint32_t *s) { *s = *s * 1664525u + 1013904223u; return *s >> 8; }
 
-typedef struct { uint32_t seed; int frames; double time; int text_left; char txt; int gap_every; } stream;
+typedef struct { uint32_t seed; int frames; double time; int text_left; char txt; int gap_every; int station_every; } stream;
 
 static int stream_frame(stream *st, vbi_sliced *sl, double *dt)
 {
@@ -329,8 +331,15 @@ static int stream_frame(stream *st, vbi_sliced *sl, double *dt)
 	if ((r >> 24) % 5 == 0) {                                     /* a Teletext page header, always the same text */
 		static const uint8_t ham8[16] = { 0x15, 0x02, 0x49, 0x5E, 0x64, 0x73, 0x38, 0x2F,
 						  0xD0, 0xC7, 0x8C, 0x9B, 0xA1, 0xB6, 0xFD, 0xEA };
-		static const char txt[] = "ZVBI TEST               12:34:56";
+		static const char txt0[] = "ZVBI TEST               12:34:56";
+		static const char *const stations[3] = { "ZVBI ONE", "OTHER TV", "THIRD PROGRAMME" };
+		char txt[40];
 		int i;
+		if (st->station_every > 0)         /* rolling header with page number; the station changes unannounced */
+			snprintf(txt, sizeof txt, "10%d %-20.20s12:34:56", st->frames & 1,
+				 stations[(st->frames / st->station_every) % 3]);
+		else
+			memcpy(txt, txt0, sizeof txt0);
 		sl[n].id = VBI_SLICED_TELETEXT_B; sl[n].line = 7;
 		sl[n].data[0] = ham8[1]; sl[n].data[1] = ham8[0];
 		for (i = 2; i < 10; ++i) sl[n].data[i] = ham8[0];
@@ -341,13 +350,15 @@ static int stream_frame(stream *st, vbi_sliced *sl, double *dt)
 	return n;
 }
 
+static int par_station;             /* > 0: the Teletext station of the decode stream changes every .. headers */
+
 static void run_stream(uint32_t seed, int frames, int gap_every)
 {
 	stream st;
 	vbi_sliced sl[4];
 	int f;
 	memset(&st, 0, sizeof st);
-	st.seed = seed; st.gap_every = gap_every;
+	st.seed = seed; st.gap_every = gap_every; st.station_every = par_station;
 	for (f = 0; f < frames; ++f) {
 		double dt;
 		int n = stream_frame(&st, sl, &dt);
@@ -511,9 +522,11 @@ static void op_par(void)
 	if (h_ntok != 6 || !h_int(h_tok[1], &seed) || !h_int(h_tok[2], &frames) || !h_int(h_tok[3], &mode)
 	    || !h_int(h_tok[4], &gap) || gap < 0 || gap > 100000 || mode < 0 || mode > 3) { puts("rej parse"); return; }
 	th = h_tok[5];
-	if (strlen(th) > 8 || strspn(th, "DFCRAX") != strlen(th) || frames < 1 || frames > 2000000) { puts("rej parse"); return; }
-	hasD = strchr(th, 'D') != NULL; hasR = strchr(th, 'R') != NULL;
+	if (strlen(th) > 8 || strspn(th, "DTFCRAX") != strlen(th) || frames < 1 || frames > 2000000) { puts("rej parse"); return; }
+	hasD = strchr(th, 'D') != NULL || strchr(th, 'T') != NULL; hasR = strchr(th, 'R') != NULL;
 	if (!hasD && !hasR) { puts("rej parse"); return; }
+	if (strchr(th, 'D') && strchr(th, 'T')) { puts("rej parse"); return; }        /* one decode thread */
+	par_station = strchr(th, 'T') ? 24 : 0;
 	par_seed = (uint32_t) seed; par_frames = (int) frames; par_gap = (int) gap;
 	n_fetch = n_torn = n_selfdl = n_raw = n_svc = 0;
 	stop_flag = 0; done_main = 0;
@@ -538,7 +551,7 @@ static void op_par(void)
 		rd_setup(625, VBI_SLICED_TELETEXT_B | VBI_SLICED_VPS | VBI_SLICED_CAPTION_625 | VBI_SLICED_WSS_625, 0);
 	for (i = 0; th[i]; ++i) {
 		switch (th[i]) {
-		case 'D': pthread_create(&main_t[nm++], NULL, th_decode, NULL); break;
+		case 'D': case 'T': pthread_create(&main_t[nm++], NULL, th_decode, NULL); break;
 		case 'R': pthread_create(&main_t[nm++], NULL, th_raw, NULL); break;
 		case 'F': pthread_create(&aux_t[na], NULL, th_fetch, (void *)(uintptr_t)(na + 1)); na++; break;
 		case 'C': pthread_create(&aux_t[na++], NULL, th_chsw, NULL); break;
